@@ -371,6 +371,11 @@ class _SwvReduce:
         # native kernel's layout differs from the advertised one without changing the block count)
         near = sorted({w for h in getattr(D_, "hints", ()) for w in (h, h + 1, h + 2) if 1 <= w <= n} | {w for w in (2, 3) if w <= n})
         w = D_.choice(near) if near and D_.chance(1, 2) else D_.int(1, n)
+        layouts = getattr(D_, "leaf_layouts", ())
+        if i < len(layouts) and tuple(layouts[i][0]) == v.shape:
+            spots = [(k, c[j + 1] + 1) for k, c in enumerate(layouts[i][1]) if v.shape[k] > 1 for j in range(len(c) - 1) if c[j + 1] >= 1 and c[j] >= 2 * (c[j + 1] + 1)]
+            if spots and D_.chance(2, 3):
+                ax, w = D_.choice(spots)
         return {"op": "swv_reduce", "args": [i], "w": w, "axis": ax, "red": D_.choice(SWV_REDS), "keepdims": D_.chance(1, 5)}
 
     @staticmethod
